@@ -143,8 +143,22 @@ def rules_G(u, rep):
         "read#5 Ne %s" % AH: ("Error::WrongAlignHash", hash_payload_a),
     }
     seen = set()
+    NEG = {"Eq": "Ne", "Ne": "Eq", "Le": "Gt", "Gt": "Le", "Lt": "Ge", "Ge": "Lt"}
+
+    def negate(row):
+        ps = row.split(" ", 2)
+        return "%s %s %s" % (ps[0], NEG[ps[1]], ps[2]) if len(ps) == 3 and ps[1] in NEG else None
+    not_accept = {negate(a): a for a in want if negate(a)}
     for rj in table["rejects"]:
         f = rj["fails"]
+        # a rejecting path has, by definition, left the accepting one: the negation of the accepting condition on the
+        # very field the failing test is about may precede it (`if magic != MAGIC { if magic == MAGIC_REV {..} else {..} }`)
+        fld = f.split(" ")[0]
+        own = [a for a in rj["after"] if a in not_accept and a.split(" ")[0] == fld]
+        if own:
+            rj = dict(rj, after=[a for a in rj["after"] if a not in own])
+            if f == "read#0 Ne MAGIC_REV":
+                f = "read#0 not in {MAGIC,MAGIC_REV}"
         # alternative spelling of the magic mismatch: `read#0 Ne MAGIC` after excluding MAGIC_REV
         if f not in want_rej:
             rep.oblige(False)
